@@ -14,9 +14,9 @@ package raft
 
 import (
 	"bytes"
-	"crypto/sha256"
 	"encoding/json"
 	"fmt"
+	"hash/crc32"
 	"io"
 	"os"
 	"path/filepath"
@@ -83,9 +83,11 @@ type c09Entry struct {
 	ChunkSeq  int
 }
 
+var c09Castagnoli = crc32.MakeTable(crc32.Castagnoli)
+
 func c09ShowVal(v []byte) string {
 	if len(v) > 64 {
-		return fmt.Sprintf("<%d bytes %x>", len(v), sha256.Sum256(v))
+		return fmt.Sprintf("<%d bytes crc32c %08x>", len(v), crc32.Checksum(v, c09Castagnoli))
 	}
 	return fmt.Sprintf("%q", v)
 }
@@ -104,7 +106,7 @@ func (e *c09Entry) String() string {
 func (e *c09Entry) describe() string {
 	lai := "nil"
 	if e.LAI != nil {
-		lai = fmt.Sprint(*e.LAI)
+		lai = fmt.Sprintf("@%d", *e.LAI)
 	}
 	switch e.Kind {
 	case "put":
@@ -244,6 +246,9 @@ type c09Case struct {
 	Idx     []uint64    // Idx[p] = raft index of slot p, Idx[0] == 0
 	Data    [][]byte    // raft.Log.Data of slot p
 	Ext     [][]byte    // raft.Log.Extensions of slot p (chunk info; nil for an unchunked entry)
+	// Scrub (optional) makes a text independent of the process history (key prefix and absolute raft indexes of a
+	// log taken from a live backend): rapid only shrinks a failure whose message it can reproduce literally.
+	Scrub func(string) string
 }
 
 // visible: does the log of slot p reach FSM.ApplyBatch (everything but a non-final chunk)?
@@ -338,9 +343,9 @@ func c09SpecGen(txnPct int) *rapid.Generator[c09Spec] {
 		if s.LaiDie >= 17 && s.LaiDie < 19 {
 			s.LaiSlack = rapid.IntRange(0, 3).Draw(t, "laiSlack")
 		}
-		if rapid.IntRange(0, 79).Draw(t, "bigDie") == 79 {
+		if rapid.IntRange(0, 99).Draw(t, "bigDie") == 50 { // (a value in the middle: rapid favours the ends of a range)
 			s.Big = 1
-			if rapid.IntRange(0, 9).Draw(t, "threeChunks") == 9 {
+			if rapid.IntRange(0, 9).Draw(t, "threeChunks") == 5 {
 				s.Big = 2
 			}
 			s.Interleave = rapid.IntRange(0, 2).Draw(t, "interleave")
@@ -738,6 +743,8 @@ type c09Replica struct {
 	fsm        *FSM
 	restartPos int // position after which the in-memory state of the FSM was lost (reopen / snapshot install); -1 = never
 	resume     int // first slot fed after the restart (restartPos+1, or earlier when the trailing chunk logs are replayed)
+	restarted  bool
+	replay     bool // continues after the index its FSM persisted (plain restart) rather than with the next log
 	verdicts   map[int]bool
 	applied    int // highest position applied (or covered by the installed snapshot)
 	div        *c09Divergence
@@ -852,13 +859,15 @@ func (r *c09Replica) checkState(c *c09Case, p int) {
 		r.div = &c09Divergence{Replica: r.name, Pos: p, Kind: "state", Got: fmt.Sprint(got), Want: fmt.Sprint(want)}
 		return
 	}
-	if w := c.inflight(p); chunks != w {
+	// (while trailing chunk logs are fed a second time the number of stored chunks depends on whether the chunking
+	// wrapper still has them; it is compared again from the first new log on)
+	if w := c.inflight(p); chunks != w && !(r.restarted && p <= r.restartPos) {
 		r.div = &c09Divergence{Replica: r.name, Pos: p, Kind: "chunk-keys", Got: fmt.Sprintf("%d keys under %s", chunks, chunkingPrefix), Want: fmt.Sprintf("%d (chunks of entries still incomplete)", w)}
 		return
 	}
 	// the FSM's latest index is that of the last log that reached it (a non-final chunk does not)
 	if li, _ := r.fsm.LatestState(); li.Index != c.Idx[c.lastVisible(p)] {
-		r.div = &c09Divergence{Replica: r.name, Pos: p, Kind: "index", Got: fmt.Sprint(li.Index), Want: fmt.Sprint(c.Idx[c.lastVisible(p)])}
+		r.div = &c09Divergence{Replica: r.name, Pos: p, Kind: "index", Got: fmt.Sprintf("@%d", li.Index), Want: fmt.Sprintf("@%d", c.Idx[c.lastVisible(p)])}
 	}
 }
 
@@ -968,6 +977,25 @@ func TestVerif_C09_Replicas(t *testing.T) {
 // where those come from (the always-verify replay of a generated log, or the verdicts a live leader reported).
 func c09RunReplicas(rt *rapid.T, rec *verifx.Recorder, c *c09Case, ref string) {
 	n := c.N
+	viol := func(sig string, det map[string]any, format string, a ...any) {
+		msg := fmt.Sprintf(format, a...)
+		if c.Scrub != nil {
+			msg = c.Scrub(msg)
+			for k, v := range det {
+				switch x := v.(type) {
+				case string:
+					det[k] = c.Scrub(x)
+				case []string:
+					y := make([]string, len(x))
+					for i := range x {
+						y[i] = c.Scrub(x[i])
+					}
+					det[k] = y
+				}
+			}
+		}
+		rec.Violation(rt, sig, det, "%s", msg)
+	}
 	allowInside := rapid.IntRange(0, 9).Draw(rt, "allowRestartInsideTxnWindow") < 6
 
 	// candidate restart positions
@@ -1084,9 +1112,11 @@ func c09RunReplicas(rt *rapid.T, rec *verifx.Recorder, c *c09Case, ref string) {
 		return r
 	}
 	r0, r1, r2 := mk("R0", -1, 0), mk("R1", -1, 0), mk("R2", r2pos, r2resume)
+	r2.replay = r2replay
 	var r3 *c09Replica
 	if r3pos > 0 {
 		r3 = mk("R3", r3pos, r3resume)
+		r3.replay = r3replay
 		for _, b := range r3a {
 			r3.apply(rt, c, b[0], b[1])
 		}
@@ -1101,6 +1131,7 @@ func c09RunReplicas(rt *rapid.T, rec *verifx.Recorder, c *c09Case, ref string) {
 			} else {
 				r3.applied = p
 				r3.checkState(c, p)
+				r3.restarted = true
 			}
 		}
 	}
@@ -1122,10 +1153,11 @@ func c09RunReplicas(rt *rapid.T, rec *verifx.Recorder, c *c09Case, ref string) {
 		r2.fsm = c09NewFSM(rt, r2.dir)
 		open = append(open, r2.fsm)
 		if li, _ := r2.fsm.LatestState(); li.Index != c.Idx[c.lastVisible(r2pos)] {
-			r2.div = &c09Divergence{Replica: "R2", Pos: r2pos, Kind: "reopen-index", Got: fmt.Sprint(li.Index), Want: fmt.Sprint(c.Idx[c.lastVisible(r2pos)])}
+			r2.div = &c09Divergence{Replica: "R2", Pos: r2pos, Kind: "reopen-index", Got: fmt.Sprintf("@%d", li.Index), Want: fmt.Sprintf("@%d", c.Idx[c.lastVisible(r2pos)])}
 		} else {
 			r2.checkState(c, r2pos)
 		}
+		r2.restarted = true
 	}
 	for _, b := range r2b {
 		r2.apply(rt, c, b[0], b[1])
@@ -1159,7 +1191,7 @@ func c09RunReplicas(rt *rapid.T, rec *verifx.Recorder, c *c09Case, ref string) {
 
 	// ---- coverage
 	nTxn, nStale, nConflict, nForged, nChunked := 0, 0, 0, 0, 0
-	windowHit, chunkHit, chunkReplayHit := false, false, false
+	windowHit, chunkHit, chunkReplayHit, chunkPlainHit := false, false, false, false
 	for p := 1; p <= n; p++ {
 		e := c.Entries[p]
 		if e.Kind != "chunk" && e.NumChunks > 1 {
@@ -1167,6 +1199,9 @@ func c09RunReplicas(rt *rapid.T, rec *verifx.Recorder, c *c09Case, ref string) {
 			for _, r := range reps {
 				if straddles(r, e) {
 					chunkHit = true
+					if r.replay {
+						chunkPlainHit = true // a log that reached the FSM lies between the chunks, so the replay starts behind the first chunk
+					}
 				} else if r.restartPos >= e.FirstPos && r.restartPos < e.Pos {
 					chunkReplayHit = true
 				}
@@ -1228,6 +1263,9 @@ func c09RunReplicas(rt *rapid.T, rec *verifx.Recorder, c *c09Case, ref string) {
 	if chunkHit {
 		rec.Class("restart-between-chunks:earlier-chunk-not-fed-again", 1)
 	}
+	if chunkPlainHit {
+		rec.Class("restart-between-chunks:earlier-chunk-not-fed-again:plain-restart-behind-an-interleaved-entry", 1)
+	}
 	if chunkReplayHit {
 		rec.Class("restart-between-chunks:all-chunks-fed-again", 1)
 	}
@@ -1258,7 +1296,7 @@ func c09RunReplicas(rt *rapid.T, rec *verifx.Recorder, c *c09Case, ref string) {
 			rt.Fatalf("harness: dump: %v", err)
 		}
 		if chunks != 0 {
-			rec.Violation(rt, "chunk-keys-left-behind", render(), "%s ends with %d keys under %s", r.name, chunks, chunkingPrefix)
+			viol("chunk-keys-left-behind", render(), "%s ends with %d keys under %s", r.name, chunks, chunkingPrefix)
 		}
 		if base == nil {
 			base = r
@@ -1268,7 +1306,7 @@ func c09RunReplicas(rt *rapid.T, rec *verifx.Recorder, c *c09Case, ref string) {
 		gi, _ := r.fsm.LatestState()
 		bi, _ := base.fsm.LatestState()
 		if strings.Join(got, "\n") != strings.Join(bgot, "\n") || gi.Index != bi.Index {
-			rec.Violation(rt, "replicas-end-state-differs", render(), "%s ends with %v @%d, %s with %v @%d", r.name, got, gi.Index, base.name, bgot, bi.Index)
+			viol("replicas-end-state-differs", render(), "%s ends with %v @%d, %s with %v @%d", r.name, got, gi.Index, base.name, bgot, bi.Index)
 		}
 	}
 	if len(divs) == 0 {
@@ -1310,7 +1348,7 @@ func c09RunReplicas(rt *rapid.T, rec *verifx.Recorder, c *c09Case, ref string) {
 		r := byName(d.Replica)
 		switch {
 		case isF1(d):
-			rec.Violation(rt, "restart-loses-fastpath-tracker", detail(d),
+			viol("restart-loses-fastpath-tracker", detail(d),
 				"replica %s lost its in-memory state after entry #%d and then committed transaction #%d (start #%d, read set written in between) that the continuous replicas and %s reject: %s",
 				d.Replica, r.restartPos, d.Pos, e.StartPos, ref, e.String())
 		case (d.Kind == "chunk-lost" || d.Kind == "chunk-keys") && r != nil && (straddles(r, e) || (e.Kind == "chunk" && straddles(r, e.Owner))):
@@ -1324,11 +1362,11 @@ func c09RunReplicas(rt *rapid.T, rec *verifx.Recorder, c *c09Case, ref string) {
 				how = "snapshot-install-between-chunks"
 				what = fmt.Sprintf("installed a snapshot taken after log #%d", r.restartPos)
 			}
-			rec.Violation(rt, "chunked-op-lost:"+how, detail(d),
+			viol("chunked-op-lost:"+how, detail(d),
 				"replica %s %s and continued with log #%d, between the chunks (first #%d, final #%d) of entry %s: the chunks stored before are dropped when the next chunk arrives, the final chunk is answered with nil and the entry is never applied, while the continuous replicas apply it",
 				d.Replica, what, r.resume, e.FirstPos, e.Pos, e.String())
 		case d.Kind == "verdict" && d.Got == "conflict" && d.Want == "commit" && c09RootListWithChunks(c, e, d):
-			rec.Violation(rt, "chunk-keys-visible-to-root-list-verification", detail(d),
+			viol("chunk-keys-visible-to-root-list-verification", detail(d),
 				"replica %s rejects transaction %s, %s commits it: it verifies a listing of the root prefix while chunks of another entry are stored under %q in the data bucket (stored before the batch #%d..#%d is applied, or left from earlier logs), so the listing shows %q and the verdict depends on how the logs are batched",
 				d.Replica, e.String(), ref, chunkingPrefix, d.BatchLo, d.BatchHi, chunkingPrefix)
 		default:
@@ -1354,7 +1392,7 @@ func c09RunReplicas(rt *rapid.T, rec *verifx.Recorder, c *c09Case, ref string) {
 			case "snapshot":
 				sig = "snapshot-install-fails"
 			}
-			rec.Violation(rt, sig, detail(d), "replica %s at entry #%d (%s): %s: got %s, %s says %s", d.Replica, d.Pos, e.String(), d.Kind, d.Got, ref, d.Want)
+			viol(sig, detail(d), "replica %s at entry #%d (%s): %s: got %s, %s says %s", d.Replica, d.Pos, e.String(), d.Kind, d.Got, ref, d.Want)
 		}
 	}
 }
